@@ -12,6 +12,21 @@ package main
 //	   => ok=<k>;xw=<cross-wired>;bad=<other failures>
 //	bw cfg= side=<srv|cli> n=<bytes>        256 KB/s limit, one-way, receive times sampled at the backend
 //	   => total=<bytes>;s=<ms:bytes,…>
+//	slow cfg= enc= comp= lim= dir=<down|up> n=<bytes> after=<bytes | fin> pace=<ms> pause=<ms> seed=
+//	     a reader that is slow (sleeps `pace` ms after every read of <= 32 KiB) and stops reading for `pause` ms —
+//	     once it has `after` bytes, or (fin, down only) at the moment the WRITING side of the tunnel is done: the backend
+//	     has written everything and half-closed, frpc has forwarded it all into the tunnel, closed, and hung up on the
+//	     backend. down: the backend writes n bytes in one Write, the USER is the reader; up: the user writes and
+//	     closes, the BACKEND is the reader. The reader must still get the complete stream and then EOF.
+//	   => got=<bytes>;eof=<0|1>;eq=<0|1>
+//	cfg = <tcpMux><tls><pool>[<t|q|k|w>]: control transport tcp (default) / quic / kcp / websocket
+//	sbw cfg= q=<side>.<up|down>.<limit KB>.<enc><comp>.<bytes>,… seed=
+//	     SMALL limits (8KB plain, 12KB encrypted, 64KB encrypted+compressed; burst below / above the 16..32 KiB
+//	     pieces Join copies) enforced by frpc or frps, payloads of several bursts; the transfers of one op run
+//	     simultaneously on distinct proxies.
+//	     up: the user writes and closes, the backend must get everything and then EOF; down: the BACKEND writes the
+//	     payload in one Write and closes while the user only reads, the user must get everything and then EOF
+//	   => r=<bytes received>:<eof 0|1>:<bytes equal 0|1>:<ms.bytes/ms.bytes/…>|…
 import (
 	"bufio"
 	"bytes"
@@ -57,6 +72,16 @@ type te2ePair struct {
 
 var te2ePairs = map[string]*te2ePair{}
 
+// the small-limit proxies: bandwidthLimit (KB), encryption, compression
+var te2eSmallLimits = []struct {
+	kb        int
+	enc, comp bool
+}{{8, false, false}, {12, true, false}, {64, true, true}}
+
+func te2eSmallKey(side string, kb int, enc, comp bool) string {
+	return fmt.Sprintf("sbw/%s/%d/%d%d", side, kb, stkBit(enc), stkBit(comp))
+}
+
 func te2eKey(typ string, enc, comp bool, lim string, pp bool) string {
 	return fmt.Sprintf("%s/%d/%d/%s/%d", typ, stkBit(enc), stkBit(comp), lim, stkBit(pp))
 }
@@ -79,6 +104,45 @@ func te2eTransport(t *v1.ProxyTransport, enc, comp bool, lim, quantity string, p
 	}
 }
 
+// Ports that are handed to frps / to a visitor AFTER they were picked must not come from the kernel's ephemeral range:
+// between the pick and the bind, frps (remotePort = 0 proxies) or any outgoing connection of this process may be given
+// the very same port (seen as: a user of an stcp visitor port is answered by some tcp proxy's backend; frps cannot
+// listen). Ports below the ephemeral range, probed free, starting at a per-process offset.
+var te2eNextPort = 0
+
+func te2ePort() int {
+	lo, hi := 10000, 32000
+	if b, err := os.ReadFile("/proc/sys/net/ipv4/ip_local_port_range"); err == nil {
+		if f := strings.Fields(string(b)); len(f) == 2 && atoiOr(f[0], 0) > lo+2000 {
+			hi = atoiOr(f[0], hi) - 100
+		}
+	}
+	if te2eNextPort == 0 {
+		te2eNextPort = lo + (os.Getpid()*131)%(hi-lo)
+	}
+	for i := 0; i < hi-lo; i++ {
+		p := te2eNextPort
+		te2eNextPort++
+		if te2eNextPort >= hi {
+			te2eNextPort = lo
+		}
+		l, err := net.Listen("tcp", net.JoinHostPort("127.0.0.1", strconv.Itoa(p)))
+		if err != nil {
+			continue
+		}
+		l.Close()
+		return p
+	}
+	return freeTCPPort()
+}
+
+func atoiOr(s string, d int) int {
+	if n, err := strconv.Atoi(s); err == nil {
+		return n
+	}
+	return d
+}
+
 func te2eGetPair(cfg string) *te2ePair {
 	if p, ok := te2ePairs[cfg]; ok {
 		return p
@@ -98,19 +162,30 @@ func te2eGetPair(cfg string) *te2ePair {
 // one attempt; a loopback port picked in advance may have been taken meanwhile (infrastructure, retried)
 func te2eStartPair(cfg string) (*te2ePair, string) {
 	mux, tlsOn, pool := cfg[0] == '1', cfg[1] == '1', int(cfg[2]-'0')
+	proto := byte('t')
+	if len(cfg) > 3 {
+		proto = cfg[3]
+	}
 	p := &te2ePair{proxies: map[string]*te2eProxy{}}
 	scfg := &v1.ServerConfig{}
 	scfg.BindAddr = "127.0.0.1"
-	scfg.BindPort = freeTCPPort()
+	scfg.BindPort = te2ePort()
 	scfg.ProxyBindAddr = "127.0.0.1"
-	scfg.VhostHTTPSPort = freeTCPPort()
-	scfg.TCPMuxHTTPConnectPort = freeTCPPort()
+	scfg.VhostHTTPSPort = te2ePort()
+	scfg.TCPMuxHTTPConnectPort = te2ePort()
 	scfg.Auth.Token = stkToken
 	scfg.Transport.TCPMux = &mux
+	switch proto {
+	case 'q':
+		scfg.QUICBindPort = freeUDPPort()
+	case 'k':
+		scfg.KCPBindPort = freeUDPPort()
+	}
 	scfg.Complete()
 	svr, err := server.NewService(scfg)
 	if err != nil {
-		panic(err)
+		// a port picked above was taken meanwhile (e.g. as the source port of some connection of another pair)
+		return nil, " frps:" + err.Error()
 	}
 	go svr.Run(context.Background())
 	p.svr = svr
@@ -122,6 +197,16 @@ func te2eStartPair(cfg string) (*te2ePair, string) {
 	ccfg.Transport.TLS.Enable = &tlsOn
 	ccfg.Transport.TCPMux = &mux
 	ccfg.Transport.PoolCount = pool
+	switch proto {
+	case 'q':
+		ccfg.Transport.Protocol = "quic"
+		ccfg.ServerPort = scfg.QUICBindPort
+	case 'k':
+		ccfg.Transport.Protocol = "kcp"
+		ccfg.ServerPort = scfg.KCPBindPort
+	case 'w':
+		ccfg.Transport.Protocol = "websocket"
+	}
 	f := false
 	ccfg.LoginFailExit = &f
 	ccfg.Complete()
@@ -149,7 +234,7 @@ func te2eStartPair(cfg string) (*te2ePair, string) {
 					pcs = append(pcs, c)
 				}
 				// stcp: the visitor's own options are the proxy's, swapped (the two legs are independent)
-				px := &te2eProxy{key: te2eKey("stcp", enc, comp, lim, false), typ: "stcp", enc: enc, comp: comp, lim: lim, port: freeTCPPort()}
+				px := &te2eProxy{key: te2eKey("stcp", enc, comp, lim, false), typ: "stcp", enc: enc, comp: comp, lim: lim, port: te2ePort()}
 				add(px)
 				c := &v1.STCPProxyConfig{}
 				c.Name, c.Type = px.key, "stcp"
@@ -206,6 +291,20 @@ func te2eStartPair(cfg string) (*te2ePair, string) {
 		te2eTransport(&c.Transport, false, false, side, "256KB", false)
 		c.Complete("")
 		pcs = append(pcs, c)
+	}
+	for _, side := range []string{"srv", "cli"} {
+		for _, sl := range te2eSmallLimits {
+			kb := sl.kb
+			px := &te2eProxy{key: te2eSmallKey(side, kb, sl.enc, sl.comp), typ: "tcp", lim: side, enc: sl.enc, comp: sl.comp}
+			add(px)
+			c := &v1.TCPProxyConfig{}
+			c.Name, c.Type = px.key, "tcp"
+			c.LocalIP, c.LocalPort = "127.0.0.1", px.backend.port()
+			c.RemotePort = px.port
+			te2eTransport(&c.Transport, px.enc, px.comp, side, fmt.Sprintf("%dKB", kb), false)
+			c.Complete("")
+			pcs = append(pcs, c)
+		}
 	}
 	sort.Strings(p.keys)
 	cli, err := client.NewService(client.ServiceOptions{Common: ccfg, ProxyCfgs: pcs, VisitorCfgs: vcs})
@@ -329,7 +428,8 @@ func te2eTransfer(px *te2eProxy, n, ch int, pat string, oneway bool, seed int64,
 	select {
 	case bc = <-px.backend.newC:
 	case <-time.After(3 * time.Second):
-		res.err = "nobackend"
+		// a reply arrived but this proxy's backend saw no connection: name the tag that did arrive
+		res.err = "nobackend:tag=" + hx(string(tagBuf[1:]))
 		return res
 	}
 	if !started {
@@ -492,6 +592,233 @@ func te2eBW(kv map[string]string) string {
 	return fmt.Sprintf("total=%d;s=%s", bc.recv.Len(), strings.Join(s, ","))
 }
 
+// one transfer through a small-limit proxy; returns "<bytes received>:<eof>:<equal>:<samples>"
+func te2eSmallOne(p *te2ePair, el string, seed int64) (string, bool) {
+	f := strings.Split(el, ".")
+	if len(f) != 5 || len(f[3]) != 2 {
+		return "0:0:0:", false
+	}
+	side, dir, kb, n := f[0], f[1], atoi(f[2]), atoi(f[4])
+	px := p.proxies[te2eSmallKey(side, kb, f[3][0] == '1', f[3][1] == '1')]
+	if px == nil || n < 1 {
+		return "0:0:0:", false
+	}
+	for len(px.backend.newC) > 0 {
+		<-px.backend.newC
+	}
+	c, br, _, err := te2eConnect(px)
+	if err != nil {
+		return "0:0:0:", false
+	}
+	defer c.Close()
+	tagBuf := make([]byte, 1+len(px.backend.tag))
+	_ = c.SetReadDeadline(time.Now().Add(5 * time.Second))
+	if _, err := readFull(br, tagBuf); err != nil {
+		return "0:0:0:", false
+	}
+	var bc *stkBConn
+	select {
+	case bc = <-px.backend.newC:
+	case <-time.After(3 * time.Second):
+		return "0:0:0:", false
+	}
+	defer bc.c.Close()
+	// the time the limiter needs for everything beyond the first burst, plus a margin
+	budget := time.Duration(float64(n)/float64(kb*1024)*float64(time.Second)) + 4*time.Second
+	var at []int64
+	var cum []int
+	var got []byte
+	var want []byte
+	eof := false
+	if dir == "up" {
+		want = stkPayload(n, "rand", seed, true)
+		werr := make(chan error, 1)
+		go func() { werr <- stkWriteChunked(c, want, 32*1024, 1) }()
+		dl := time.After(budget)
+	wait:
+		for {
+			if len(px.backend.received(bc)) >= n {
+				break
+			}
+			select {
+			case <-bc.eof: // the tunnel was torn down early
+				break wait
+			case <-dl:
+				break wait
+			case <-time.After(2 * time.Millisecond):
+			}
+		}
+		// the user has finished writing and leaves: the backend must reach end-of-stream
+		select {
+		case <-werr:
+		case <-time.After(time.Second):
+		}
+		c.Close()
+		eof = stkWaitCh(bc.eof, 2*time.Second)
+		px.backend.mu.Lock()
+		got = append([]byte(nil), bc.recv.Bytes()...)
+		at, cum = append([]int64(nil), bc.at...), append([]int(nil), bc.cum...)
+		px.backend.mu.Unlock()
+	} else {
+		want = stkPayload(n, "rand", seed, false)
+		if _, err := c.Write(stkSourceReq(n, seed)); err != nil {
+			return "0:0:0:", false
+		}
+		_ = c.SetReadDeadline(time.Now().Add(budget))
+		buf := make([]byte, 32*1024)
+		var t0 time.Time
+		for {
+			k, err := br.Read(buf)
+			if k > 0 {
+				if t0.IsZero() {
+					t0 = time.Now()
+				}
+				got = append(got, buf[:k]...)
+				at = append(at, time.Since(t0).Milliseconds())
+				cum = append(cum, len(got))
+			}
+			if err != nil {
+				ne, isNet := err.(net.Error)
+				eof = !(isNet && ne.Timeout()) // end-of-stream (or a reset) as opposed to nothing more arriving
+				break
+			}
+		}
+	}
+	// cumulative bytes at the last read of each 100 ms slot
+	var s []string
+	for i := range at {
+		if i+1 < len(at) && at[i+1]/100 == at[i]/100 {
+			continue
+		}
+		s = append(s, fmt.Sprintf("%d.%d", at[i], cum[i]))
+	}
+	equal := bytes.Equal(got, want)
+	return fmt.Sprintf("%d:%d:%d:%s", len(got), stkBit(eof), stkBit(equal), strings.Join(s, "/")), equal && eof
+}
+
+func te2eSmallBW(kv map[string]string) string {
+	p := te2eGetPair(kv["cfg"])
+	seed := int64(atoi(kv["seed"]))
+	els := strings.Split(kv["q"], ",")
+	out := make([]string, len(els))
+	good := make([]bool, len(els))
+	var wg sync.WaitGroup
+	for i, el := range els {
+		wg.Add(1)
+		go func(i int, el string) {
+			defer wg.Done()
+			out[i], good[i] = te2eSmallOne(p, el, seed+int64(i))
+		}(i, el)
+	}
+	wg.Wait()
+	for i, el := range els {
+		if !good[i] {
+			// incomplete (loaded machine?): once more, alone, before reporting — a systematic fault shows again
+			out[i], _ = te2eSmallOne(p, el, seed+int64(i))
+		}
+	}
+	return "r=" + strings.Join(out, "|")
+}
+
+// a paused reader: the writer writes everything and closes, the reader stops for `pause` ms after `after` bytes
+func te2eSlowOne(kv map[string]string) (string, bool) {
+	p := te2eGetPair(kv["cfg"])
+	px := p.proxies[te2eKey("tcp", kv["enc"] == "1", kv["comp"] == "1", kv["lim"], false)]
+	if px == nil {
+		return "noproxy", false
+	}
+	n, after, pause, seed := atoi(kv["n"]), 0, atoi(kv["pause"]), int64(atoi(kv["seed"]))
+	if kv["after"] != "fin" {
+		after = atoi(kv["after"])
+	}
+	for len(px.backend.newC) > 0 {
+		<-px.backend.newC
+	}
+	c, br, _, err := te2eConnect(px)
+	if err != nil {
+		return "err=connect", false
+	}
+	defer c.Close()
+	tagBuf := make([]byte, 1+len(px.backend.tag))
+	_ = c.SetReadDeadline(time.Now().Add(5 * time.Second))
+	if _, err := readFull(br, tagBuf); err != nil {
+		return "err=notag", false
+	}
+	var bc *stkBConn
+	select {
+	case bc = <-px.backend.newC:
+	case <-time.After(3 * time.Second):
+		return "err=nobackend", false
+	}
+	defer bc.c.Close()
+	pace := time.Duration(atoi(kv["pace"])) * time.Millisecond
+	budget := time.Duration(pause)*time.Millisecond + 10*time.Second + pace*time.Duration(n/32768+1)
+	var got, want []byte
+	eof := false
+	if kv["dir"] == "down" {
+		want = stkPayload(n, "rand", seed, false)
+		if _, err := c.Write(stkSourceReq(n, seed)); err != nil {
+			return "err=write", false
+		}
+		_ = c.SetReadDeadline(time.Now().Add(budget))
+		buf := make([]byte, 32*1024)
+		paused := false
+		for {
+			k, err := br.Read(buf)
+			got = append(got, buf[:k]...)
+			if !paused {
+				at := false
+				if kv["after"] == "fin" {
+					select {
+					case <-bc.eof:
+						at = true
+					default:
+					}
+				} else {
+					at = len(got) >= after
+				}
+				if at {
+					paused = true
+					time.Sleep(time.Duration(pause) * time.Millisecond)
+				} else if pace > 0 && err == nil {
+					time.Sleep(pace)
+				}
+			}
+			if err != nil {
+				ne, isNet := err.(net.Error)
+				eof = !(isNet && ne.Timeout())
+				break
+			}
+		}
+	} else {
+		if n < stkSourceReqLen {
+			n = stkSourceReqLen
+		}
+		want = stkPayload(n, "rand", seed, true)
+		copy(want, stkPauseReq(after, pause))
+		werr := make(chan error, 1)
+		go func() { werr <- stkWriteChunked(c, want, 64*1024, 1) }()
+		select {
+		case <-werr:
+		case <-time.After(budget):
+		}
+		// the user has written everything and leaves
+		c.Close()
+		eof = stkWaitCh(bc.eof, budget)
+		got = px.backend.received(bc)
+	}
+	equal := bytes.Equal(got, want)
+	return fmt.Sprintf("got=%d;eof=%d;eq=%d", len(got), stkBit(eof), stkBit(equal)), equal && eof && len(got) == n
+}
+
+func te2eSlow(kv map[string]string) string {
+	r, ok := te2eSlowOne(kv)
+	if !ok && strings.HasPrefix(r, "err=") {
+		r, _ = te2eSlowOne(kv) // the connection could not be set up (loaded machine?): once more
+	}
+	return r
+}
+
 func te2eExec(tok []string) string {
 	kv := stkKV(tok)
 	switch tok[0] {
@@ -503,6 +830,10 @@ func te2eExec(tok []string) string {
 		return te2eMulti(kv)
 	case "bw":
 		return te2eBW(kv)
+	case "sbw":
+		return te2eSmallBW(kv)
+	case "slow":
+		return te2eSlow(kv)
 	}
 	return "badop"
 }
@@ -530,8 +861,37 @@ func te2eGen(rng *rand.Rand, n int, emit func(string)) {
 	x("111", "tcpmux", 1, 1, "none", 0, 300000, 1000, "zero", "echo")
 	emit("bw cfg=111 side=srv n=655360")
 	emit("bw cfg=001 side=cli n=655360")
+	// small limits, both enforcing sides, both directions: the two ops together use every (side, limit, direction)
+	emit(te2eGenSmall(rng, "111", 0))
+	emit(te2eGenSmall(rng, "001", 1))
+	// a slow, pausing reader behind every kind of control transport; the long pause once, on the datagram-based transport,
+	// at the moment the writing side is done (everything still outstanding sits in the buffers along the tunnel and the
+	// writing side has closed long before the reader comes back)
+	emit(fmt.Sprintf("slow cfg=001q enc=0 comp=0 lim=none dir=down n=%d after=fin pace=2 pause=3500 seed=%d", 10<<20, rng.Intn(100000)))
+	emit(fmt.Sprintf("slow cfg=001q enc=1 comp=0 lim=none dir=up n=%d after=%d pace=0 pause=200 seed=%d", 2<<20, 65536, rng.Intn(100000)))
+	emit(fmt.Sprintf("slow cfg=111 enc=0 comp=1 lim=none dir=down n=%d after=fin pace=1 pause=300 seed=%d", 4<<20, rng.Intn(100000)))
+	emit(fmt.Sprintf("slow cfg=101w enc=1 comp=1 lim=cli dir=up n=%d after=%d pace=0 pause=300 seed=%d", 1<<20, 0, rng.Intn(100000)))
 	for i := 0; i < n; i++ {
 		cfg := pick(rng, cfgs)
+		if rng.Intn(12) == 0 {
+			cfg = pick(rng, []string{"001q", "101w", "001q", cfg})
+		}
+		if rng.Intn(15) == 0 {
+			sz := pick(rng, []int{17, 5000, 70000, 1 << 20, 3 << 20})
+			dir := pick(rng, []string{"down", "up"})
+			after := strconv.Itoa(sz*rng.Intn(8)/8 + rng.Intn(2))
+			if dir == "down" && rng.Intn(2) == 0 {
+				after = "fin"
+			}
+			emit(fmt.Sprintf("slow cfg=%s enc=%d comp=%d lim=%s dir=%s n=%d after=%s pace=%d pause=%d seed=%d", cfg, rng.Intn(2), rng.Intn(2),
+				pick(rng, []string{"none", "cli", "srv"}), dir, sz, after, pick(rng, []int{0, 0, 1, 3}), pick(rng, []int{0, 20, 150, 400}),
+				rng.Intn(100000)))
+			continue
+		}
+		if rng.Intn(200) == 0 {
+			emit(te2eGenSmall(rng, cfg, rng.Intn(2)))
+			continue
+		}
 		if rng.Intn(6) == 0 {
 			k := 2 + rng.Intn(5)
 			var px []string
@@ -561,4 +921,20 @@ func te2eGen(rng *rand.Rand, n int, emit func(string)) {
 		}
 		x(cfg, typ, enc, comp, lim, ppv, sz, pick(rng, []int{0, 1, 7, 1000, 16384, -1}), pick(rng, []string{"rand", "zero", "mixed"}), mode)
 	}
+}
+
+// one transfer per small-limit proxy (they run simultaneously), 2 … 3.5 bursts each => at most ~2.5 s of limiter time
+func te2eGenSmall(rng *rand.Rand, cfg string, phase int) string {
+	var q []string
+	i := phase
+	for _, side := range []string{"srv", "cli"} {
+		for _, sl := range te2eSmallLimits {
+			dir := []string{"up", "down"}[i%2]
+			i++
+			n := sl.kb*1024*2 + rng.Intn(sl.kb*1024*3/2)
+			q = append(q, fmt.Sprintf("%s.%s.%d.%d%d.%d", side, dir, sl.kb, stkBit(sl.enc), stkBit(sl.comp), n))
+		}
+		i++
+	}
+	return fmt.Sprintf("sbw cfg=%s q=%s seed=%d", cfg, strings.Join(q, ","), rng.Intn(100000))
 }
